@@ -69,6 +69,21 @@ def lattice_trials(tier):
                 continue
               trials.append(dict(kind="lattice", sizes=sizes, mono=list(mono), uni=uni, trusts=ts,
                                  fam=fam, lo=bounds[0], hi=bounds[1]))
+  # 3-d lattices: every pair of (family, (main, cond, direction)) trusts - conflicts that need 3 dims
+  triples = [(m, c, s) for m in range(3) for c in range(3) if m != c for s in (1, -1)]
+  singles = [(f, t) for f in ("edgeworth_trusts", "trapezoid_trusts") for t in triples]
+  for a, b in itertools.combinations(singles, 2):
+    if tier == "quick" and (a[1][2] == -1 and b[1][2] == -1):
+      continue
+    trials.append(dict(kind="lattice3", pair=[[a[0], list(a[1])], [b[0], list(b[1])]]))
+  # 3-d lattices with unequal sizes: every ordered feature pair (ascending AND descending index
+  # order) for every pairwise constraint family
+  for sizes in ([2, 2, 3], [3, 2, 2], [2, 3, 2]):
+    for a, b in itertools.permutations(range(3), 2):
+      for key, val in (("edgeworth_trusts", [(a, b, 1)]), ("trapezoid_trusts", [(a, b, -1)]),
+                       ("monotonic_dominances", [(a, b)]), ("range_dominances", [(a, b)]),
+                       ("joint_monotonicities", [(a, b)])):
+        trials.append(dict(kind="lattice3s", sizes=sizes, key=key, val=[list(v) for v in val]))
   # dominances / joint constraints on 2-d lattices
   for sizes in ([2, 2], [3, 3]):
     for mono in itertools.product([0, 1], repeat=2):
@@ -136,7 +151,7 @@ def lattice_exercise(layer_and_cfg):
   tf, tfl = bind.bind()
   layer, sizes = layer_and_cfg
   n = rl.nvert(sizes)
-  W = alpha.words(alpha.A3, n)
+  W = alpha.words(alpha.A3, n) if n <= 9 else alpha.words(alpha.A3, 9)[:, ::9].repeat(2, axis=0)[:n]
   W = np.concatenate([W, 1e3 * W[:, 1:8], W[:, 1:8] + 5.0], axis=1).astype(np.float32)
   units = W.shape[1]
   # constraint on all words (a fresh constraints object of the same config, packed as units)
@@ -162,6 +177,37 @@ def lattice_build(t):
   def build():
     layer = tfl.layers.Lattice(**kw)
     layer.build((None, len(t["sizes"])))
+    return layer, list(t["sizes"])
+  return build
+
+
+def lattice3_expect(t):
+  mains, conds, dirs = set(), set(), {}
+  for fam, (m, c, s) in t["pair"]:
+    if dirs.setdefault((m, c), s) != s:
+      return "reject"
+    mains.add(m); conds.add(c)
+  return "reject" if mains & conds else "accept"
+
+
+def lattice3_build(t):
+  tf, tfl = bind.bind()
+  def build():
+    kw = {}
+    for fam, tr in t["pair"]:
+      kw.setdefault(fam, []).append(tuple(tr))
+    layer = tfl.layers.Lattice(lattice_sizes=[2, 2, 2], monotonicities=[1, 1, 1], **kw)
+    layer.build((None, 3))
+    return layer, [2, 2, 2]
+  return build
+
+
+def lattice3s_build(t):
+  tf, tfl = bind.bind()
+  def build():
+    layer = tfl.layers.Lattice(lattice_sizes=list(t["sizes"]), monotonicities=[1, 1, 1],
+                               **{t["key"]: [tuple(v) for v in t["val"]]})
+    layer.build((None, 3))
     return layer, list(t["sizes"])
   return build
 
@@ -710,6 +756,8 @@ def synonym_case(item):
 FAMILIES = {
     "lattice": (lattice_expect, lattice_build, lattice_exercise),
     "lattice2": (lattice2_expect, lattice2_build, lattice_exercise),
+    "lattice3": (lattice3_expect, lattice3_build, lattice_exercise),
+    "lattice3s": (lambda t: "accept", lattice3s_build, lattice_exercise),
     "pwl": (pwl_expect, pwl_build, pwl_exercise),
     "linear": (linear_expect, linear_build, linear_exercise),
     "cat": (cat_expect, cat_build, cat_exercise),
